@@ -1,6 +1,136 @@
-(* Props/C06.v — placeholder, filled below *)
-From Coq Require Import List NArith ZArith.
-From Cedar Require Import Lib.Bytes Model.Cache Model.Resume.
-Theorem C06_placeholder : is_aesgcm s_AES = true.
-Proof. reflexivity. Qed.
-Print Assumptions C06_placeholder.
+(* Props/C06.v — property theorems only; proofs live in Proofs/C06.v, the
+   history definitions in Proofs/C06Defs.v, the models in Model/Resume.v and
+   Model/Cache.v. *)
+From Coq Require Import List NArith ZArith Bool.
+From Cedar Require Import Lib.Bytes Lib.Sym Model.Cache Model.Resume Proofs.C06Defs Proofs.C06.
+Import ListNotations.
+Local Open Scope Z_scope.
+
+(* A server resumes only a session that is present, unexpired and carries an
+   AES-GCM key of 32 bytes; when ServerHandshake returns, the stream is
+   encrypting with exactly that key; every application frame it then accepts
+   was sealed under that key with this connection's transcript digests, and
+   whatever it sends opens under no other key.  For EVERY server state, clock
+   value and request. *)
+Theorem C06_needs_key : forall s now q wc s' rep n st,
+  handle_resumption s now q wc = (s', rep, SOk n st) ->
+  exists e w k ki,
+    find_sess (q_sid q) (c_sessions (cache_at s w)) = Some e /\ is_expired e now = false /\
+    e_key e = Some ki /\ k_data ki = k /\ is_aesgcm (k_proto ki) = true /\ lenN k = 32%N /\
+    st_key st = Some k /\ n_encryption n = true /\ n_resumed n = true /\
+    (forall f p, srv_accept st f = Some p ->
+       exists hdr iv, f = WSealed hdr iv (seal k iv (AadFirst (st_recv_dg st) (st_send_dg st) hdr) p)) /\
+    (forall hdr iv p, exists c, srv_send st hdr iv p = WSealed hdr iv c /\
+       forall k' n' a' p', open k' n' a' c = Some p' -> k' = k).
+Proof. exact needs_key. Qed.
+Print Assumptions C06_needs_key.
+
+(* a session without a usable key is never resumed, whatever the request *)
+Theorem C06_keyless_never : forall s now q wc e w,
+  snd (srv_lookup s now (q_sid q)) = Some (e, w) -> usable_key e = None ->
+  handle_resumption s now q wc =
+    (fst (srv_lookup s now (q_sid q)), (if q_want_reply q then ReplySidNotFound else NoReply), SErr).
+Proof. exact keyless_never. Qed.
+Print Assumptions C06_keyless_never.
+
+(* Dead stays dead: once every stored entry under an id is expired (in
+   particular when there is none), then through EVERY continuation of the history
+   (stores of other sessions, arbitrary resumption requests, renewals, clock ticks,
+   Invalidate, InvalidateExpired, on either cache) that does not store a session
+   under that id again, every resumption request naming it is refused -- an error,
+   and SID_NOT_FOUND exactly when a reply was requested -- and the id is still dead
+   afterwards (so no renewal was applied to it). *)
+Theorem C06_dead_stays_dead : forall h st sid,
+  dead (fst st) (snd st) sid -> no_establish sid h ->
+  dead (fst (fst (srun st h))) (snd (fst (srun st h))) sid /\
+  forall o, In o (snd (srun st h)) -> q_sid (fst (fst o)) = sid -> refused o.
+Proof. exact dead_run. Qed.
+Print Assumptions C06_dead_stays_dead.
+
+(* the three ways to be dead: unknown, invalidated, expired *)
+Theorem C06_unknown_is_dead : forall c now sid,
+  find_sess sid (c_sessions c) = None -> dead_in c now sid.
+Proof. exact absent_dead_in. Qed.
+Print Assumptions C06_unknown_is_dead.
+Theorem C06_invalidated_is_dead : forall c now sid, dead_in (fst (invalidate c sid)) now sid.
+Proof. exact invalidate_dead_in. Qed.
+Print Assumptions C06_invalidated_is_dead.
+Theorem C06_expired_is_dead : forall s now sid,
+  srv_ok s ->
+  (forall w e, find_sess sid (c_sessions (cache_at s w)) = Some e -> is_expired e now = true) ->
+  dead s now sid.
+Proof. exact expired_dead. Qed.
+Print Assumptions C06_expired_is_dead.
+(* srv_ok (both caches represent maps) holds in every reachable state *)
+Theorem C06_caches_are_maps : forall h st, srv_ok (fst st) -> srv_ok (fst (fst (srun st h))).
+Proof. exact srv_ok_run. Qed.
+Print Assumptions C06_caches_are_maps.
+
+(* Same session: the server reports the id, user, authentication status and
+   valid commands stored at establishment and installs the stored key; a client
+   whose cached copy carries the same key installs that very key. *)
+Theorem C06_same_session : forall s now q wc s' rep n st c ce p,
+  handle_resumption s now q wc = (s', rep, SOk n st) ->
+  exists e w k,
+    find_sess (q_sid q) (c_sessions (cache_at s w)) = Some e /\ usable_key e = Some k /\
+    st_key st = Some k /\
+    n_sid n = q_sid q /\
+    n_user n = pol_get e p_user /\
+    n_authentication n = (match pol_get e p_authenticated with Some b => b | None => false end) /\
+    n_valid n = pol_get e p_valid /\
+    n_command n = (match q_command q with Some cm => cm | None => wc end) /\
+    (e_key ce = e_key e -> on_resume p (e_id ce) = RAuthorized ->
+       snd (resume_session c now ce p) = OResumed (e_id ce) (e_key ce) (pol_get ce p_user)
+       /\ usable_key ce = Some k).
+Proof. exact same_session. Qed.
+Print Assumptions C06_same_session.
+
+(* Replay.  The full statement ("a requester that only holds bytes recorded from
+   an earlier connection of the session gets no application byte accepted") is
+   FALSE for the model, as it is for the code (known finding
+   replay-of-recorded-resumed-connection): *)
+Theorem C06_no_replay_refuted :
+  exists s1 s2 rep1 rep2 n1 n2 st1 st2,
+    handle_resumption rp_srv 10 rp_req 60010 = (s1, rep1, SOk n1 st1) /\
+    srv_accept st1 rp_frame = Some [x68; x69] /\
+    handle_resumption s1 20 rp_req 60010 = (s2, rep2, SOk n2 st2) /\
+    srv_accept st2 rp_frame = Some [x68; x69].
+Proof. exact replay_accepted. Qed.
+Print Assumptions C06_no_replay_refuted.
+
+(* The strongest true statement.  (a) A recorded frame is accepted on a resumed
+   connection only if it was produced with the session key for a connection whose
+   request and reply bytes were identical (same session id, command and reply
+   flag), and it delivers exactly the recorded payload: nothing new can be forged.
+   (b) Cleartext and anything sealed under another key are never accepted. *)
+Theorem C06_no_replay_partial :
+  (forall k q k' q' rep' hdr iv p' p,
+     srv_accept (ok_stream k q) (client_frame k' q' rep' hdr iv p') = Some p ->
+     k' = k /\ req_bytes q' = req_bytes q /\
+     dg_of (reply_bytes rep') = dg_of (reply_bytes (ok_reply q)) /\ p' = p) /\
+  (forall k q f,
+     (forall hdr iv c, f = WSealed hdr iv c -> forall k' n a p, c = Seal k' n a p -> k' <> k) ->
+     srv_accept (ok_stream k q) f = None).
+Proof. exact (conj replay_only_same_transcript no_key_no_accept). Qed.
+Print Assumptions C06_no_replay_partial.
+
+(* ---- non-vacuity ---------------------------------------------------------------- *)
+Example C06_example_resumes :
+  exists s' n st, handle_resumption rp_srv 10 rp_req 60010 = (s', ReplyAuthorized rp_sid, SOk n st)
+                  /\ st_key st = Some rp_key /\ n_user n = Some [x75] /\ n_authentication n = true.
+Proof. do 3 eexists. vm_compute. repeat split. Qed.
+Example C06_example_expired_refused :
+  snd (handle_resumption rp_srv 5000 rp_req 60010) = SErr
+  /\ snd (fst (handle_resumption rp_srv 5000 rp_req 60010)) = ReplySidNotFound.
+Proof. vm_compute. split; reflexivity. Qed.
+Example C06_example_keyless_refused :
+  let e := server_entry 0 rp_sid [x63] [] None true (Some [x75]) None 2100 950 in
+  snd (handle_resumption {| s_custom := None; s_global := store empty_cache e |} 10 rp_req 60010) = SErr.
+Proof. vm_compute. reflexivity. Qed.
+Example C06_example_dead_hypotheses :
+  dead (fst (fst (srun (rp_srv, 0) [SInvalidate rp_sid InGlobal]))) 0 rp_sid /\ srv_ok rp_srv.
+Proof.
+  split.
+  - split; [|exact I]. cbn. intros e [].
+  - split; [|exact I]. unfold sessions_ok. cbn. constructor; [intros []|constructor].
+Qed.
